@@ -286,7 +286,9 @@ def C01.writeCell (elseB : List String) (refused : Bool) : Option Cell :=
   else none
 
 theorem C01.write_facts :
-    writeGuards = [("w.done", "return 0"), ("len(w.readers) == 0", "return 0")] ∧
+    -- third guard (fix 6f38a18): no linked reader is open ⇒ return 0 before the outbound hooks; for the
+    -- model this is the write with no accepting reader: no row, count 0 – `write_row_as_modelled` below
+    writeGuards = [("w.done", "return 0"), ("len(w.readers) == 0", "return 0"), ("!w.accepting()", "return 0")] ∧
     writeLoop = ⟨"range", "w.readers", "i,r", false, false, false,
       ["if r.write(New(pck.Payload()), w, w.links[i], w.written)", "  count++", "else", "  receives[i] = refused"]⟩ ∧
     writeAccepted = "r.write(New(pck.Payload()), w, w.links[i], w.written)" ∧
@@ -436,9 +438,10 @@ theorem C01.reader_queue_writers :
   decide
 
 theorem C01.packet_methods_as_modelled :
+    -- `accepting` (reads `readers`, asks each `Reader.closed`) and `closed` (reads `done`) are read-only helpers
     writerMethods = ["AddInboundHook", "AddOutboundHook", "Links", "Link", "Unlink", "Write", "Receive", "Close", "receive",
-      "indexOfReader", "indexOfHead"] ∧
-    readerMethods = ["AddInboundHook", "AddOutboundHook", "Read", "Receive", "Close", "write"] := by
+      "accepting", "indexOfReader", "indexOfHead"] ∧
+    readerMethods = ["AddInboundHook", "AddOutboundHook", "Read", "Receive", "Close", "closed", "write"] := by
   decide
 
 /-! ## `receive` / `Unlink` / `Link` and the helpers, by outline -/
